@@ -228,3 +228,74 @@ def _json_donor(rng, feats):
         data = iodata.load_one(e["path"], fmt="json_qcschema")
     feats.update({"donor": e["file"], "natom": data.natom})
     return data, feats
+
+
+def _relayout_array(x, rng):
+    """An array with the same values, shape and dtype but another memory layout (Fortran order, strided or reversed view)."""
+    if not isinstance(x, np.ndarray) or x.dtype.kind not in "fi" or x.size < 2:
+        return x
+    mode = int(rng.integers(0, 3))
+    if x.ndim >= 2 and mode == 0:
+        return np.asfortranarray(x)
+    if mode == 1:
+        big = np.zeros(x.shape[:-1] + (2 * x.shape[-1],), dtype=x.dtype)
+        big[..., ::2] = x
+        return big[..., ::2]
+    return x[::-1].copy()[::-1]
+
+
+def relayout(data, rng):
+    """Replace the numerical arrays of an IOData object by equal arrays with a different memory layout, in place.
+
+    Nothing in the documentation restricts attributes to C-contiguous arrays; numpy code that walks memory instead of indices
+    (nditer, ravel(order="K"), .data, tofile) behaves differently on such arrays.
+    """
+    import attrs
+
+    for name in ("atcoords", "atgradient", "athessian", "atmasses", "cellvecs", "atcorenums", "atfrozen"):
+        x = getattr(data, name, None)
+        if isinstance(x, np.ndarray):
+            setattr(data, name, _relayout_array(x, rng))
+    for name in ("atcharges", "one_ints", "one_rdms", "two_ints", "two_rdms", "moments"):
+        d = getattr(data, name, None)
+        if isinstance(d, dict) and d:
+            setattr(data, name, {k: _relayout_array(v, rng) for k, v in d.items()})
+    if data.cube is not None:
+        data.cube = attrs.evolve(data.cube, data=_relayout_array(data.cube.data, rng), axes=_relayout_array(data.cube.axes, rng))
+    if data.mo is not None:
+        mo = data.mo
+        data.mo = attrs.evolve(mo, coeffs=_relayout_array(mo.coeffs, rng), occs=_relayout_array(mo.occs, rng),
+                               energies=_relayout_array(mo.energies, rng))
+    return data
+
+
+def json_built(rng):
+    """A user-built QCSchema object (molecule or input) whose nested dictionaries carry unset (None) options, empty
+    dictionaries and ordinary values: the kind of object a script assembles before writing an input for QCEngine."""
+    from iodata import IOData
+
+    natom = int(rng.integers(1, 6))
+    atnums = rng.integers(1, 19, size=natom)
+    nelec = int(atnums.sum())
+    kw = dict(atnums=atnums, atcoords=np.round(rng.normal(scale=2.0, size=(natom, 3)), 6), charge=0, spinpol=nelec % 2,
+              title=f"built {int(rng.integers(1000))}")
+
+    def options(n):
+        out = {}
+        for k in range(n):
+            out[f"opt{k}"] = [None, None, int(rng.integers(100)), "text", 0.5, True][int(rng.integers(6))]
+        return out
+
+    only_none = {"scf_guess": None, "maxiter": None}
+    pick = lambda: [only_none, {}, options(int(rng.integers(1, 4))), {"a": None}][int(rng.integers(4))]  # noqa: E731
+    if rng.random() < 0.5:
+        extra = {"schema_name": "qcschema_molecule", "molecule": {"extras": pick()}}
+        kind = "molecule"
+    else:
+        kw.update(lot=str(rng.choice(["b3lyp", "hf"])), obasis_name=str(rng.choice(["cc-pvdz", "sto-3g"])))
+        extra = {"schema_name": "qcschema_input", "molecule": {} if rng.random() < 0.5 else {"extras": pick()},
+                 "input": {"driver": str(rng.choice(["energy", "gradient"])), "model": {}, "keywords": pick()}}
+        if rng.random() < 0.5:
+            extra["input"]["extras"] = pick()
+        kind = "input"
+    return IOData(extra=extra, **kw), {"built": kind}
